@@ -373,7 +373,12 @@ func (c ProtoSliceWrapper) Size(ptr unsafe.Pointer, tag []byte) int {
 	h := *(*sliceHeader)(ptr)
 	var l int
 	for i := 0; i < h.Len; i++ {
-		l += c.Underlying.Size(unsafe.Add(h.Data, uintptr(i)*c.EltSize), tag)
+		s := c.Underlying.Size(unsafe.Add(h.Data, uintptr(i)*c.EltSize), tag)
+		if s == 0 && len(tag) != 0 {
+			// nil pointer: written as an empty element
+			s = len(tag) + 1
+		}
+		l += s
 	}
 	return l
 }
@@ -383,7 +388,15 @@ func (c ProtoSliceWrapper) Size(ptr unsafe.Pointer, tag []byte) int {
 func (c ProtoSliceWrapper) Append(data []byte, ptr unsafe.Pointer, tag []byte) []byte {
 	h := *(*sliceHeader)(ptr)
 	for i := 0; i < h.Len; i++ {
+		l := len(data)
 		data = c.Underlying.Append(data, unsafe.Pointer(uintptr(h.Data)+uintptr(i)*c.EltSize), tag)
+		if len(data) == l && len(tag) != 0 {
+			// A nil pointer writes nothing. Write an empty element instead so
+			// that, as in the WTSlice form, it reads back as a zero value and
+			// the other elements keep their positions
+			data = append(data, tag...)
+			data = append(data, 0)
+		}
 	}
 	return data
 }
